@@ -11,7 +11,7 @@ RULE = ("options: random S-PROG programs (all profiles, 1-12 cycles) are stepped
         "compared with the Lean model and the specification), and under -d no table row may repeat a name or list a "
         "constant. table: the -d wire table (grouped and ungrouped) printed by the real code in every cycle is compared "
         "byte for byte with Dump.wireTable (names up to 60 bytes, widths 0-128: the value column widens beyond 22). "
-        "distinct = (program text, option sample); non-trivial = accepted programs.")
+        "trace/disasm: the instruction line printed in every mode except -q, for every pair of first two instruction bytes and random pcs/memories, against the model (no panic). distinct = (program text, option sample); non-trivial = accepted programs.")
 
 
 def judge_options(req, impl, model, spec):
@@ -36,7 +36,16 @@ def judge_table(req, impl, model, spec):
     return {"corr": corr, "oracle": True, "what": "", "key": None if rej else req, "cats": cats}
 
 
+def judge_trace(req, impl, model, spec):
+    # the per-cycle instruction line is printed in every mode but -q: it must never take the simulation down
+    ok = not impl.startswith("PANIC")
+    return {"corr": impl == model, "oracle": ok, "what": "" if ok else "printing the instruction line panicked: " + req[:200],
+            "key": req, "cats": ["trace"]}
+
+
 def streams(tier, seed):
     q = tier == "quick"
     return [{"name": "options", "stream": "options", "count": 250 if q else 10000, "judge": judge_options},
-            {"name": "table", "stream": "table", "count": 300 if q else 12000, "judge": judge_table}]
+            {"name": "table", "stream": "table", "count": 300 if q else 12000, "judge": judge_table},
+            {"name": "trace", "stream": "trace", "count": 3000 if q else 100000, "judge": judge_trace},
+            {"name": "disasm", "stream": "disasm", "count": 2 if q else 10, "judge": judge_trace}]
